@@ -1644,6 +1644,11 @@ def analyse_positive(ctx, want_props):
                     ctx.ob({q}, d["path"] + "|accepted", True)
             for k in d.get("consts", []):
                 if k.get("quarantined"):
+                    q0 = k["quarantined"][0]
+                    msg0 = q0.get("message", "")
+                    constish = q0.get("code") in ("E0015", "E0080", "E0658", "E0493") or "non-const" in msg0 or "evaluation" in msg0 or "would overflow" in msg0
+                    if not constish:
+                        continue  # the witness fails for a reason that is not about const evaluation (e.g. the method no longer exists)
                     ctx.ob({"C15"}, "%s|const_witness|%s" % (d["path"], k["name"]), False,
                            "`%s` cannot be evaluated in a const context: %s" % (k["expr"][:120], k["quarantined"][0]["message"][:200]))
         if cr is None:
